@@ -301,12 +301,32 @@ func (st *Store) Eq(a, b *Term) *Term {
 		ol := st.Extract(o, lw-1, 0)
 		// only when the other side splits cleanly too (constant or concat at the same boundary)
 		wraps := func(t *Term) bool { return t.op == "extract" && t.args[0] == o }
-		if (!wraps(oh) && !wraps(ol)) || o.op == "const" {
+		if (oh.op != "extract" && ol.op != "extract") || o.op == "const" {
+			// the other side splits cleanly at the same boundary
 			lo := st.Eq(c.args[1], ol)
 			if lo.isFalse() {
 				return lo
 			}
 			return st.And(st.Eq(c.args[0], oh), lo)
+		}
+		if !wraps(oh) && !wraps(ol) {
+			// different piece boundaries: probe the pieces; keep the split
+			// only when it decides the equality (or most of it), otherwise
+			// one atom over the whole words is cheaper for the solver
+			lo := st.Eq(c.args[1], ol)
+			if lo.isFalse() {
+				return lo
+			}
+			hi := st.Eq(c.args[0], oh)
+			if hi.isFalse() {
+				return hi
+			}
+			if lo.isTrue() {
+				return hi
+			}
+			if hi.isTrue() {
+				return lo
+			}
 		}
 	}
 	if a.id > b.id {
